@@ -84,7 +84,10 @@ def make_tree(root, config):
             text = t[acc].replace(TAG, "%s-%s" % (loc, name.replace(".", "_")))
             if config.get("broken") and config["broken"][:2] == [loc, name]:
                 how = config["broken"][2]
-                text = {"garbage": "this is {not json", "empty": "", "truncated": text[:len(text) // 2]}[how]
+                text = {"garbage": "this is {not json", "empty": "", "truncated": text[:len(text) // 2],
+                        "foreign-type": text.replace('"productmd.%s"' % {"info": "composeinfo"}.get(acc, acc), '"productmd.discinfo"'),
+                        "bad-version": text.replace('"version": "1.2"', '"version": "1.x"'),
+                        "bad-date": text.replace('"date": "20160102"', '"date": "2016"')}[how]
             with open(os.path.join(d, name), "w") as f:
                 f.write(text)
     for s in config.get("siblings", []):
@@ -318,7 +321,7 @@ def run_unit(unit, acc):
         loc = unit[1]
         for files in (REDUCED_PATTERNS[0], REDUCED_PATTERNS[3], ["composeinfo.json", "images.json", "image-manifest.json", "rpms.json", "rpm-manifest.json"]):
             for name in files:
-                for how in ("garbage", "empty", "truncated"):
+                for how in ("garbage", "empty", "truncated", "foreign-type", "bad-version", "bad-date"):
                     config = {"locs": {loc: list(files)}, "broken": [loc, name, how], "siblings": []}
                     for seq in BOTH_ORDERS:
                         _check({"config": config, "sequence": seq}, acc, "broken")
@@ -388,7 +391,7 @@ def describe(tier):
         "exhaustive": True,
         "model_binding": "every configuration is built on disk and opened with the real productmd.compose.Compose; the model only "
                          "predicts the allowed locations and file names",
-        "assumptions": ["precedence is stated only for compose/ over the direct layout; for other coexisting layouts any location "
+        "assumptions": ["undecodable = not JSON, or JSON whose header type / version / compose date the reader rejects with ValueError", "precedence is stated only for compose/ over the direct layout; for other coexisting layouts any location "
                         "holding metadata is allowed (DESIGN.md section 4)", "'undecodable' = not JSON",
                         "HTTP(S) locations are out of scope (no network)"],
     }
